@@ -24,7 +24,8 @@ WellFormed(bs) == /\ Len(bs) \in 1..5
 
 \* a fifth byte may only carry bits 28..31 (unsigned) or bits 28..31 plus their sign extension (signed)
 InDomainU(bs) == Len(bs) < 5 \/ bs[5] <= 15
-InDomainS(bs) == Len(bs) < 5 \/ bs[5] \in (0..7) \cup (120..127)
+\* (fifth byte 8..15: bit 31 set by an unsigned-style encoding -- still a 32-bit quantity, negative as an int)
+InDomainS(bs) == Len(bs) < 5 \/ bs[5] \in (0..15) \cup (120..127)
 
 ULeb(bs) == Limbs(Pad(PayloadBits(bs), 32, 0))
 SLeb(bs) == LET p == PayloadBits(bs) IN Limbs(Pad(p, 32, p[Len(p)]))
